@@ -133,7 +133,9 @@ class Context:
             # appear reserved in stablehlo or llvm, see
             # functional_algorithms#68
             ref_name_ = f"_{ref_name}_{counter}_"
-            while other is not None:
+            while True:
+                # ref_name_ must be checked for availability also
+                # when origin-prefixed ref_name itself is not in use
                 other = self._ref_values.get(ref_name_)
                 if other is expr:
                     assert expr.props["ref"] == ref_name_  # sanity check
@@ -141,6 +143,8 @@ class Context:
                 elif other is not None:
                     counter += 1
                     ref_name_ = f"_{ref_name}_{counter}_"
+                else:
+                    break
             ref_name = ref_name_
 
         # register reference name:
